@@ -167,9 +167,67 @@ prop(id="C17", vfile="Properties/C17.v",
 KS_RULE = ("keystore profile: besides the load cases, a stress run of Save/Load/LoadByAddress from 8 goroutines on one key directory "
            "with a watchdog (a call that does not return within the deadline is a deadlock); T1 regenerates the mutex program of every "
            "exported KeyStore method from the source (calls to sibling methods inlined, defers moved to the end)")
+NODE_RULE = ("node profile: histories of the aol / pnft / burn generators decorated with node life-cycle events: CRASH (a new application "
+             "object on the same database) right after BeginBlock, after any prefix of a block's transactions, after the last transaction "
+             "before EndBlock/Commit, and right after Commit; transactions sent to CheckTx or Simulate before, or instead of, their delivery; "
+             "queries at committed heights (random past heights, 0 = latest, heights not yet committed). The extracted model answers the "
+             "same lines (committed versions, lost block, historical query). On the implementation alone: a twin application fed only the "
+             "committed blocks must return byte-identical DeliverTx responses and application hashes; after a restart height and hash must "
+             "be those of the last Commit; with -conc N background goroutines query fixed and latest heights while blocks execute and "
+             "every answer served at height h must be the one answer of height h (re-checked at rest)")
 prop(id="C20", vfile="Properties/C20.v",
-     runs=lambda tier, seed: [dict(profile="keystore", seed=seed, n=_sizes(tier, 1, 6))],
-     rule=KS_RULE, assumptions=["sync.RWMutex is modelled as a transition system with writer preference (a pending Lock blocks new RLock), "
-                                "the documented behaviour of Go's implementation"],
-     partial="only the deadlock half of the key-store clause is proved; snapshot isolation of queries and absence of data races are runtime "
-             "properties of the SDK store and the Go memory model: see DESIGN.md")
+     runs=lambda tier, seed: [dict(profile="keystore", seed=seed, n=_sizes(tier, 1, 6)),
+                              dict(profile="conc", seed=seed, n=_sizes(tier, 1, 6), race=True),
+                              dict(profile="node", seed=seed, n=_sizes(tier, 6, 150), extra=["-blocks", "8", "-conc", "4"], race=True)],
+     rule=KS_RULE + " || conc profile (race-detector build): ValidateBasic, GetSigners, GetSignBytes and String of ~1600 messages "
+          "(all boundary cases of the valid profile plus DID documents with 60 distinct unregistered key types) from 8 goroutines "
+          "in different orders; race reports are attributed by the innermost non-runtime frame of the two accesses || " + NODE_RULE,
+     assumptions=["sync.RWMutex is modelled as a transition system with writer preference (a pending Lock blocks new RLock), "
+                  "the documented behaviour of Go's implementation",
+                  "the versioned multistore (IAVL immutable versions, cache branches for deliver/check state) is modelled by Node/Model.v: "
+                  "Commit appends an immutable version, queries read a version; the SDK store itself is trusted and exercised, not verified"],
+     partial="data-race freedom is a property of the Go memory model that no executable Gallina model can exhibit: it is decided here only "
+             "dynamically (race detector on the exercised schedules); snapshot isolation is proved for the node model and checked "
+             "differentially and with concurrent readers against the real store, not verified for the SDK store implementation")
+
+
+GENESIS_RULE = ("aol / did / pnft profiles with EXPORTIMPORT events (about 1-2 per history, at random block boundaries) and -k3: text fields "
+                "sometimes hold bytes that are not UTF-8 (single bytes, truncated sequences, surrogates, 5000 x 0xff). At every event the "
+                "real application is exported (ExportAppStateAndValidators), the custom modules' ValidateGenesis is run, a fresh "
+                "application on a new database is initialised from the exported JSON and the history continues on it; the model does "
+                "the same (export_import_json) and every later dump and query is compared. On the implementation alone: the same state is "
+                "exported twice (identical bytes), the raw custom stores before and after are compared (modulo x/nft zero supply counters), "
+                "and the imported chain is exported again (custom-module genesis identical)")
+prop(id="C08", vfile="Properties/C08.v",
+     runs=lambda tier, seed: [dict(profile="pnft", seed=seed, n=_sizes(tier, 25, 2000), extra=["-blocks", "10", "-k3"]),
+                              dict(profile="aol", seed=seed, n=_sizes(tier, 25, 2000), extra=["-blocks", "10", "-k3"]),
+                              dict(profile="did", seed=seed, n=_sizes(tier, 20, 1500), extra=["-blocks", "10", "-k3"])],
+     rule=GENESIS_RULE + " || " + PNFT_RULE, assumptions=CHAIN_ASSUME + [
+         "bech32 enters as three premises (unbech (bech a) = Some a for 1..255-byte addresses, no '/' in and non-emptiness of bech strings), "
+         "instantiated in the correspondence by tables computed with the real bech32 code",
+         "the JSON layer is modelled as per-string UTF-8 coercion (Base/Utf8.v, Go's json.Marshal behaviour), base64 for byte fields as identity; "
+         "JSON syntax itself (jsonpb) is trusted and exercised by the round trip on the real code",
+         "burn has an empty genesis; bank/auth and the other SDK modules' genesis are SDK code outside the property"],
+     partial="the round trip holds for states whose text is valid UTF-8; without that premise it is false (known finding K3, "
+             "C08_invalid_utf8_refuted); the PNFT raw store loses x/nft's zero supply counters, which no query can observe")
+
+prop(id="C10", vfile="Properties/C10.v",
+     runs=lambda tier, seed: [dict(profile="node", seed=seed, n=_sizes(tier, 30, 2500), extra=["-blocks", "10"])],
+     rule=NODE_RULE, assumptions=CHAIN_ASSUME + [
+         "Node/Model.v models baseapp + the versioned multistore: Commit appends an immutable version, the deliver state is a branch that only "
+         "Commit writes through, LoadLatestVersion resumes at the last version; the store implementation (IAVL, cache stores) is SDK code, "
+         "exercised by the restart runs on the real database handle, not verified"],
+     partial="application hashes are compared on the implementation only (the model has states, not Merkle hashes); a crash is modelled as "
+             "losing the process memory with an intact database — torn database writes inside Commit are outside the model")
+
+prop(id="C09", vfile="Properties/C09.v",
+     runs=lambda tier, seed: [dict(profile="node", seed=seed + 7, n=_sizes(tier, 30, 2500), extra=["-blocks", "10", "-conc", "2"]),
+                              dict(profile="aollist", seed=seed, n=_sizes(tier, 10, 500), extra=["-blocks", "4"])],
+     rule=NODE_RULE + " || the twin replica is a second application object in the same process initialised from the same genesis bytes "
+          "(Go randomises map iteration per range statement, so map order differs between the two); thorough also re-runs the profile in "
+          "a second process with GOMAXPROCS=1 and another TZ and compares all application hashes",
+     assumptions=CHAIN_ASSUME + ["the model's transition is a function of (state, block time, transactions): determinism of the model is by "
+                                 "construction; the theorems decide independence from side traffic, restarts and genesis map order, and the "
+                                 "source tie (footprint) decides the absence of clock/randomness/goroutine/environment reads"],
+     partial="gas accounting and events are compared between replicas on the implementation only (twin); the Go runtime, the SDK stores and "
+             "protobuf marshalling are trusted to be deterministic")
